@@ -2,9 +2,10 @@
    _map_costs_to_gen :56-63, _init_gencost :66-80, _fill_gencost_poly :83-111, _fill_gencost_pwl :114-122,
    costs_from_areas :125-143, _add_linear_costs_as_pwl_cost :146-154), of pypower/polycost.py, pypower/totcost.py,
    the single-block conversion of pypower/opf_setup.py:99-110 and the CCV constraints of pypower/makeAy.py.
-   The model is the code AS IT IS (after the repairs "sign applies to the linear coefficient only" and
-   "lookup value -1 gives no cost row"): the x-values of piecewise linear areas are not mirrored, poly costs
-   mixed with pwl costs keep only cp1, the dcline reactive sign is +1, dcline rows are found by position.
+   The model is the code AS IT IS, after the repairs (sign on the linear coefficient only; lookup -1 gives no row;
+   pwl breakpoints mirrored for load/storage/dcline; cq0 creates the reactive rows; dcline row by index label;
+   dcline reactive sign -1; reactive CCV rows on the right column).  Still as it is: poly costs mixed with pwl
+   costs keep only cp1.  The rules before the repairs are kept with the suffix _old as regression witnesses.
    Executable definitions only. *)
 From Coq Require Import ZArith QArith List Bool String.
 From PPV Require Import Base.QN Base.Out.
@@ -15,7 +16,8 @@ Inductive etype := Gen | Sgen | Load | Storage | ExtGrid | Dcline.
 
 (* make_objective.py:62 and :86 (p) ; :98 (q: dcline is NOT in the list) *)
 Definition sign_p (e : etype) : Q := match e with Load | Storage | Dcline => (-1 # 1) | _ => 1 end.
-Definition sign_q (e : etype) : Q := match e with Load | Storage => (-1 # 1) | _ => 1 end.
+Definition sign_q (e : etype) : Q := match e with Load | Storage | Dcline => (-1 # 1) | _ => 1 end.
+Definition sign_q_old (e : etype) : Q := match e with Load | Storage => (-1 # 1) | _ => 1 end.
 
 Inductive res (A : Type) : Type := Ok (a : A) | Raise (s : string).
 Arguments Ok {A} a.
@@ -36,6 +38,7 @@ Record env := {
   lk_gen : option (list Z); lk_sgen : option (list Z); lk_load : option (list Z);
   lk_storage : option (list Z); lk_ext : option (list Z);
   n_gen_tab : Z;            (* len(net.gen.index), auxiliary dcline gens included *)
+  gen_labels : list Z;      (* net.gen.index (labels), auxiliary dcline gens included *)
   dcl_index : list Z;       (* net.dcline.index *)
   ng : nat                  (* len(ppci["gen"]) *)
 }.
@@ -53,14 +56,29 @@ Fixpoint index_of (l : list Z) (x : Z) (k : nat) : option nat :=
    a lookup value < 0 (element not in the ppc) -> None *)
 Definition nonneg (o : option Z) : option Z :=
   match o with Some g => if (g <? 0)%Z then None else Some g | None => None end.
+Definition dcl_pos (e : env) (k : nat) : Z :=
+  (n_gen_tab e - 2 * Z.of_nat (List.length (dcl_index e)) + Z.of_nat k * 2 + 1)%Z.
 Definition get_gen_index (e : env) (t : etype) (el : Z) : res (option Z) :=
   match t with
   | Dcline =>
       match index_of (dcl_index e) el 0 with
       | None => Raise "KeyError"
       | Some k =>
-          let el' := (n_gen_tab e - 2 * Z.of_nat (List.length (dcl_index e)) + Z.of_nat k * 2 + 1)%Z in
-          Ok (nonneg (lookup_get (lk_gen e) el'))
+          (* net.gen.index[position] is outside the try: the position of the from-bus gen -> its index label *)
+          match np_get (gen_labels e) (dcl_pos e k) with
+          | None => Raise "IndexError"
+          | Some lab => Ok (nonneg (lookup_get (lk_gen e) lab))
+          end
+      end
+  | _ => Ok (nonneg (lookup_get (lookup_of e t) el))
+  end.
+(* before the repair the position itself was used as the label *)
+Definition get_gen_index_old (e : env) (t : etype) (el : Z) : res (option Z) :=
+  match t with
+  | Dcline =>
+      match index_of (dcl_index e) el 0 with
+      | None => Raise "KeyError"
+      | Some k => Ok (nonneg (lookup_get (lk_gen e) (dcl_pos e k)))
       end
   | _ => Ok (nonneg (lookup_get (lookup_of e t) el))
   end.
@@ -121,6 +139,8 @@ Definition nz (x : Q) : bool := negb (qeqb x 0).
 (* _init_gencost :67-69 *)
 Definition is_quadratic (cs : list pcost) : bool := existsb (fun c => nz (cp2 c) || nz (cq2 c)) cs.
 Definition q_costs (cs : list pcost) (ws : list wcost) : bool :=
+  existsb (fun c => nz (cq0 c) || nz (cq1 c) || nz (cq2 c)) cs || existsb w_q ws.
+Definition q_costs_old (cs : list pcost) (ws : list wcost) : bool :=
   existsb (fun c => nz (cq1 c) || nz (cq2 c)) cs || existsb w_q ws.
 
 (* the NCOST value and the cells one poly entry writes (:88-113): the ppc variable is x = sign * p, only the
@@ -143,7 +163,7 @@ Definition fill_poly (e : env) (m : gencost) (cs : list pcost) (isq qc : bool) :
              gcs m1
   else Ok m1)).
 
-(* costs_from_areas :125-143 *)
+(* costs_from_areas before the repair: cost values times the sign, breakpoints not mirrored *)
 Fixpoint areas_go (pts : list (Q * Q * Q)) (sign : Q) (c0 : Q) (last_upper : option Q) : res (list Q) :=
   match pts with
   | [] => Ok []
@@ -160,7 +180,15 @@ Fixpoint areas_go (pts : list (Q * Q * Q)) (sign : Q) (c0 : Q) (last_upper : opt
             bind (areas_go t sign c (Some upper)) (fun rest => Ok (upper :: c :: rest))
       end
   end.
-Definition costs_from_areas (pts : list (Q * Q * Q)) (sign : Q) : res (list Q) := areas_go pts sign 0 None.
+Definition costs_from_areas_old (pts : list (Q * Q * Q)) (sign : Q) : res (list Q) := areas_go pts sign 0 None.
+
+(* costs_from_areas (repaired): the points (p_i, f(p_i)) of the user's function; for sign < 0 the breakpoints are
+   mirrored (x = -p) and listed in ascending x:  [v for x, y in zip(costs[-2::-2], costs[::-2]) for v in (-x, y)] *)
+Fixpoint unpairs (l : list (Q * Q)) : list Q := match l with [] => [] | (x, y) :: t => x :: y :: unpairs t end.
+Fixpoint pairs0 (c : list Q) : list (Q * Q) := match c with x :: y :: t => (x, y) :: pairs0 t | _ => [] end.
+Definition mirror (c : list Q) : list Q := unpairs (map (fun xy => (qopp (fst xy), snd xy)) (rev (pairs0 c))).
+Definition costs_from_areas (pts : list (Q * Q * Q)) (sign : Q) : res (list Q) :=
+  bind (areas_go pts 1 0 None) (fun costs => Ok (if qltb sign 0 then mirror costs else costs)).
 
 (* _fill_gencost_pwl :114-122 — groupby("power_type"): group "p" first, then "q"; the sign is the P sign *)
 Definition fill_pwl_group (e : env) (m : gencost) (ws : list wcost) (isq : bool) : res gencost :=
@@ -259,12 +287,14 @@ Definition obj_row (r : grow) (x : Q) : option Q :=
     | pts => lines_max pts x None
     end
   else None.
-(* variable a row is evaluated at: row i reads x_i, except that the cost-variable constraints of a reactive row
-   i > ng are stamped at column qgbas + (i - ng) - 1 with qgbas = ng (makeAy.py:63-66, opf_setup.py:162),
-   i.e. at the reactive power of the PREVIOUS generator *)
+(* variable a row is evaluated at.  Before the repair the cost-variable constraints of a reactive row i > ng were
+   stamped at column qgbas + (i - ng) - 1 with qgbas = ng (makeAy.py:63-66, opf_setup.py:162), i.e. at the reactive
+   power of the PREVIOUS generator (var_index_old) *)
 Definition is_ccv (r : grow) : bool := Z.eqb (g_model r) 1 && (2 <? g_ncost r)%Z.
-Definition var_index (ngn : nat) (i : nat) (r : grow) : nat :=
+Definition var_index_old (ngn : nat) (i : nat) (r : grow) : nat :=
   if is_ccv r && (ngn <? i)%nat then (i - 1)%nat else i.
+(* repaired (opf_setup.py: q1 = 1 + ng): every row reads its own variable *)
+Definition var_index (ngn : nat) (i : nat) (r : grow) : nat := i.
 Fixpoint objective_go (ngn : nat) (i : nat) (m : gencost) (xs : list Q) : option Q :=
   match m with
   | [] => Some 0
@@ -295,8 +325,8 @@ Definition user_pwl (pts : list (Q * Q * Q)) (p : Q) : Q :=
 Definition is_neg_et (t : etype) : bool := match t with Load | Storage | Dcline => true | _ => false end.
 (* guard of the rule before the repair: the element sign is +1, or there is neither a quadratic nor a constant term *)
 Definition G17old (t : etype) (c0 c2 : Q) : bool := negb (is_neg_et t) || (qeqb c2 0 && qeqb c0 0).
-(* reactive power: the dcline q sign is +1 although q_from = - Qg, so only cq1 = 0 is right for a dcline *)
-Definition G17q (t : etype) (c1 : Q) : bool := match t with Dcline => qeqb c1 0 | _ => true end.
+(* guard of the reactive sign rule before the repair (dcline q sign +1 although q_from = - Qg) *)
+Definition G17q_old (t : etype) (c1 : Q) : bool := match t with Dcline => qeqb c1 0 | _ => true end.
 Fixpoint same_slopes (pts : list (Q * Q * Q)) : bool :=
   match pts with
   | (_, _, s1) :: (((_, _, s2) :: _) as t) => qeqb s1 s2 && same_slopes t
@@ -326,5 +356,8 @@ Definition run_make (e : env) (cs : list pcost) (ws : list wcost) (pmin pmax : l
 (* the row one pwl entry produces (NCOST and cells written by _fill_gencost_pwl on a wide enough matrix) *)
 Definition pwl_row (t : etype) (pts : list (Q * Q * Q)) : res grow :=
   bind (costs_from_areas pts (sign_p t)) (fun costs =>
+  Ok {| g_model := 1; g_ncost := (Z.of_nat (List.length costs) / 2)%Z; g_c := costs |}).
+Definition pwl_row_old (t : etype) (pts : list (Q * Q * Q)) : res grow :=
+  bind (costs_from_areas_old pts (sign_p t)) (fun costs =>
   Ok {| g_model := 1; g_ncost := (Z.of_nat (List.length costs) / 2)%Z; g_c := costs |}).
 Definition obj_of_res (r : res grow) (x : Q) : option Q := match r with Ok g => obj_row g x | Raise _ => None end.
